@@ -101,7 +101,8 @@ structure St where
   rdisc : List Nat := []           -- receivers disconnected by the last sender
   -- concurrent specification only: send operations called and not yet returned (lock-free families)
   inflight : Nat := 0
-  -- concurrent specification only: bound on SKIP tombstones left in the mpsc-bounded ticket window by overshooting try-sends
+  -- concurrent specification only: SKIP tombstones may sit in the mpsc-bounded ticket window (number of send overlaps
+  -- since the consumer last walked to the end of the ring with no send in flight; see `retire`, `mbFlush`, `microSpur`)
   tomb : Nat := 0
   -- ghost
   created : List Val := []
